@@ -4,6 +4,7 @@ import (
 	"context"
 	"errors"
 	"fmt"
+	"github.com/mycoria/mycoria/frame"
 	"io"
 	"net"
 	"net/netip"
@@ -163,6 +164,58 @@ func runC20(c *Ctx) error {
 			special = append(special, a)
 		}
 	}
+	// ---------- (a3) the peering module is stopped while a received frame waits for its handler ----------
+	// The frame handlers have stopped (the switch is stopped before peering), a frame from the still
+	// running neighbour arrives and nobody takes it: the link reader is parked at the hand-over.  Then
+	// peering is stopped: all its workers end.
+	for rep, n := 0, c.Pick(2, 5); rep < n; rep++ {
+		w := newRWorld()
+		w.unbufferedHandler = true
+		A, err := w.addNode("A", relayStore, nil)
+		if err != nil {
+			return err
+		}
+		w.unbufferedHandler = false
+		B, err := w.addNode("B", relayStore, nil)
+		if err != nil {
+			return err
+		}
+		p, err := linkNodes(w, A, B, nil, nil)
+		if err != nil {
+			if p != nil {
+				p.close()
+			}
+			return fmt.Errorf("link setup: %w", err)
+		}
+		for k := 0; k < 1+rep%3; k++ {
+			f, err := B.builder.NewFrameV1(B.id.IP, A.id.IP, frame.NetworkTraffic, nil, []byte("a frame that arrives while the router stops"), nil)
+			if err != nil {
+				return err
+			}
+			if err := p.lb.Send(f); err != nil {
+				f.ReturnToPool()
+			}
+		}
+		time.Sleep(150 * time.Millisecond) // the reader has a frame and waits for a handler
+		_ = A.pe.Stop()
+		ended := A.pe.Manager().WaitForWorkers(3 * time.Second)
+		c.Eval()
+		c.Count("stop-with-frame-waiting-for-handler")
+		if !ended {
+			c.Violate("the peering module was stopped while a received frame waited for its handler, and three seconds later one of its workers is still running", "stop-hangs", map[string]any{"cfg": "peering stopped with a frame waiting for its handler", "frames": 1 + rep%3})
+		}
+		// let a parked reader go, whatever it was doing
+		for drained := false; !drained; {
+			select {
+			case fr := <-A.peerIn:
+				fr.ReturnToPool()
+			case <-time.After(50 * time.Millisecond):
+				drained = true
+			}
+		}
+		p.close()
+	}
+	c.NonTrivial("stop-with-frame-waiting-for-handler")
 	// ---------- (a2) a worker started right before the stop ----------
 	// A module starts a worker and is stopped at once (Cancel, WaitForWorkers, as Group.Stop does it):
 	// "no worker left" is reported only when the worker has finished, whether or not the new
